@@ -46,9 +46,13 @@ func parseSafe(src []byte, keepFmt bool) (tree *dyntpl.Tree, err error, pan stri
 
 // regTpl parses src and registers it under a fresh key.
 func regTpl(src string, keepFmt bool) (key string, err error, pan string) {
-	tree, err, pan := parseSafe([]byte(src), keepFmt)
+	srcBuf := []byte(src)
+	tree, err, pan := parseSafe(srcBuf, keepFmt)
 	if err != nil || pan != "" {
 		return "", err, pan
+	}
+	for i := range srcBuf {
+		srcBuf[i] = '#' // the caller's buffer is the caller's again after Parse has returned
 	}
 	key = fmt.Sprintf("vh%d", atomic.AddInt64(&tplSeq, 1))
 	dyntpl.RegisterTplKey(key, tree)
